@@ -150,6 +150,13 @@ impl PK {
     fn parse(s: &str) -> Option<PK> {
         PKS.into_iter().find(|k| k.name() == s)
     }
+    /// family name of a nested construct in signatures
+    fn family(self) -> &'static str {
+        match self {
+            PK::In | PK::NotIn | PK::Exists | PK::NotExists => "sub",
+            _ => "scalar",
+        }
+    }
 }
 /// WHERE clause of a subquery over Tj inside a level-i query (j = i + 1)
 #[derive(Clone, PartialEq, Eq, PartialOrd, Ord, Debug, Hash)]
@@ -219,7 +226,9 @@ impl W {
     fn sig(&self) -> String {
         match self {
             W::None | W::Local | W::Corr => String::new(),
-            W::Nested(p) | W::CorrNested(p) => format!(">{}", p.sig()),
+            // a nested construct is named by its family only (the exact kind is in the case): the bases of a nested
+            // query passed, so the blame lies with the enclosing construct's handling of a subquery inside its subquery
+            W::Nested(p) | W::CorrNested(p) => format!(">{}{}", p.kind.family(), p.w.sig()),
         }
     }
     fn corr_sig(&self) -> String {
@@ -230,7 +239,14 @@ impl W {
             W::Corr | W::CorrNested(_) => "corr",
         };
         match self.nested() {
-            Some(p) => format!("{own}>{}", p.w.corr_sig()),
+            Some(p) => format!("{own}>{}", p.w.corr_sig_coarse()),
+            None => own.to_string(),
+        }
+    }
+    fn corr_sig_coarse(&self) -> String {
+        let own = if self.is_corr() { "corr" } else { "uncorr" };
+        match self.nested() {
+            Some(p) => format!("{own}>{}", p.w.corr_sig_coarse()),
             None => own.to_string(),
         }
     }
@@ -755,6 +771,11 @@ fn signature(q: &QS, t: &Tabs, exp: &str, obs: &str) -> String {
     format!("{PROP}/{construct}/{corr}/in:{},out:{}/{exp}>{obs}", t.null_class(i), t.null_class(o))
 }
 
+/// The one place where a query reaches TurDB (run and replay share it).
+fn run_sql(db: &TestDb, _q: &QS, sql: &str) -> Res {
+    db.exec(sql)
+}
+
 /// EXPLAIN node names (for the operator counters)
 fn plan_nodes(plan: &Option<String>) -> Vec<String> {
     let Some(p) = plan else { return vec!["explain-error".into()] };
@@ -807,7 +828,7 @@ impl<'a> Runner<'a> {
                 rep.count(&format!("plan_node[{n}]"), 1);
             }
         }
-        let res = self.db.exec(&sql);
+        let res = run_sql(self.db, q, &sql);
         let nontrivial = match &exp {
             Expect::Rows(r) => !r.is_empty(),
             Expect::Window(q) => !q.full.is_empty(),
@@ -934,10 +955,15 @@ impl Check for C18 {
         let mut s = Spec::new(
             PROP,
             "exploration",
-            "Pass flat (depth 1): every pair of tables l, r with keys = multisets of <= 3 values over {NULL,1,2,3} (m = a fixed third table for set operations in subqueries), plain and with an index on every key column, x every depth-1 query: 7 predicate constructs ([NOT] IN, [NOT] EXISTS, = scalar MAX, = scalar bare column, 0 < scalar COUNT(*)) x inner WHERE {none, local, correlated}; scalar subquery in the select list {MAX, MIN, COUNT(*), bare} x the same WHEREs; 9 derived-table shapes; {UNION, INTERSECT, EXCEPT} x [ALL] x 6 forms. Pass nested (depth 2): every triple of tables with <= 2 rows over {NULL,1,2} x all 315 depth-2 predicates (each depth-1 predicate nested, with and without correlation, under each of the 7 constructs) + nested scalar-select and derived forms. Thorough adds depth 3 (4431 predicates) over quadruples of <= 2-row tables over {NULL,1} and depth 2 over <= 3-row tables. One case = one (tables, query) execution compared as a bag with the reference model (expected cardinality errors must be errors); non-trivial = expected result non-empty or an expected error. A query whose sub-constructs already fail on the same tables is pruned and counted.",
+            "Pass flat (depth 1): every pair of tables l, r with keys = multisets of <= 3 values over {NULL,1,2,3} (m = a fixed third table for set operations in subqueries), plain and with an index on every key column, x every depth-1 query: 7 predicate constructs ([NOT] IN, [NOT] EXISTS, = scalar MAX, = scalar bare column, 0 < scalar COUNT(*)) x inner WHERE {none, local, correlated}; scalar subquery in the select list {MAX, MIN, COUNT(*), bare} x the same WHEREs; 9 derived-table shapes; {UNION, INTERSECT, EXCEPT} x [ALL] x 6 forms. Pass nested (depth 2): every triple of tables with <= 2 rows over {NULL,1,2} x all 315 depth-2 predicates (each depth-1 predicate nested, with and without correlation, under each of the 7 constructs) + nested scalar-select and derived forms. Thorough adds depth 3 (4410 predicates + nested scalar-select / derived forms) over quadruples of <= 2-row tables over {NULL,1} (innermost table <= 1 row) and depth 2 over <= 3-row tables (indexed variant on the <= 2-row tables). One case = one (tables, query) execution compared as a bag with the reference model (expected cardinality errors must be errors); non-trivial = expected result non-empty or an expected error. A query whose sub-constructs already fail on the same tables is pruned and counted.",
         );
         s.cap_quick_s = 90;
         s.cap_thorough_s = 1500;
+        // development aid on a loaded machine: VERIF_DEV_CAP=<seconds> lifts both soft deadlines
+        if let Some(c) = std::env::var("VERIF_DEV_CAP").ok().and_then(|c| c.parse().ok()) {
+            s.cap_quick_s = c;
+            s.cap_thorough_s = c;
+        }
         s.assumptions = &["reference model refmodel::sql (cross-checked against SQLite) defines the SQL answer; a bare-column scalar subquery may raise its cardinality error even when no outer row needs the value"];
         vec![s]
     }
@@ -991,6 +1017,10 @@ impl Check for C18 {
             rep.bound(&format!("{name}.levels"), json!(ntab));
             rep.bound(&format!("{name}.queries"), json!(queries.len()));
             for tup in tuples(&tables, ntab) {
+                // depth 3: the innermost table n has at most one row (halves the quadruples)
+                if ntab == 4 && tup[3].len() > 1 {
+                    continue;
+                }
                 let i = case_no;
                 case_no += 1;
                 if !ctx.mine(i) {
@@ -1003,7 +1033,8 @@ impl Check for C18 {
                 let t = Tabs { t: tup };
                 rep.begin_case(&json!({"tabs": t.to_json(), "indexed": false}).to_string());
                 run_tables(ctx, rep, &t, false, &queries);
-                if thorough && depth == 2 {
+                // thorough: the indexed variant on the tables of <= 2 rows
+                if thorough && depth == 2 && t.t.iter().all(|k| k.len() <= 2) {
                     run_tables(ctx, rep, &t, true, &queries);
                 }
             }
@@ -1024,7 +1055,7 @@ impl Check for C18 {
         // the single query, without base pruning: the signature is a function of (query, tables, result)
         let mdb = t.model();
         let (sql, exp) = expectation(&q, &mdb);
-        let res = db.exec(&sql);
+        let res = run_sql(&db, &q, &sql);
         rep.bulk(1, 1);
         if let Some((ec, oc, et, ot)) = judge(&exp, &res, matches!(q, QS::Select { .. }), has_bare_scalar(&q)) {
             let sig = match where_ignored_level(&q, &mdb, &res) {
